@@ -128,3 +128,18 @@ brk("c19-isot-truncated-to-byte", ["C19"],
 benign("c04-benign-rename-loop-variables", ["C04"],
     [("jpeg2000/t2/packet_decoder.go", "func (pd *PacketDecoder) decodeRLCP() ([]Packet, error) {\n	for res := 0; res < pd.numResolutions; res++ {\n		for layer := 0; layer < pd.numLayers; layer++ {",
       "func (pd *PacketDecoder) decodeRLCP() ([]Packet, error) {\n	nRes, nLay := pd.numResolutions, pd.numLayers\n	for res := 0; res < nRes; res++ {\n		for layer := 0; layer < nLay; layer++ {")])
+# ---------------------------------------------------------------- C05 / C06
+brk("c05-lossless-codec-lossless-from-pcrd-switch", ["C05"],
+    [("jpeg2000/lossless/codec.go", "	encParams.EnableMCT = losslessParams.AllowMCT\n", "	encParams.EnableMCT = losslessParams.AllowMCT\n	encParams.Lossless = !losslessParams.UsePCRDOpt\n")],
+    "FLOWS-LOSSLESS", "JPEG2000Lossless")
+brk("c05-generic-parameter-flips-lossless", ["C05"],
+    [("jpeg2000/lossless/codec.go", "	if v := parameters.GetParameter(\"mctAssocType\"); v != nil {", "	if v := parameters.GetParameter(\"irreversible\"); v != nil {\n		if b, ok := v.(bool); ok {\n			encParams.Lossless = !b\n		}\n	}\n	if v := parameters.GetParameter(\"mctAssocType\"); v != nil {")],
+    "FLOWS-LOSSLESS", "JPEG2000")
+brk("c06-htj2k-lossless-registered-with-lossy-constructor", ["C06"],
+    [("jpeg2000/htj2k/codec.go", "	losslessCodec := NewLosslessCodec()\n", "	losslessCodec := NewCodec(80)\n")],
+    "FLOWS-LOSSLESS", "HTJ2KLossless")
+brk("c06-htj2k-decoder-factory-removed", ["C06"],
+    [("jpeg2000/htj2k/codec.go", "		decoder.SetBlockDecoderFactory(func(width, height int, _ int) t2.BlockDecoder {\n			return NewHTDecoder(width, height)\n		})\n", "		_ = t2.BlockDecoder(nil)\n")],
+    "FLOWS-HTFACTORY", "")
+benign("c05-benign-explicit-true", ["C05", "C06"],
+    [("jpeg2000/lossless/codec.go", "	encParams.EnableMCT = losslessParams.AllowMCT\n", "	encParams.EnableMCT = losslessParams.AllowMCT\n	encParams.Lossless = true\n")])
